@@ -54,17 +54,28 @@ func C18_CtxIDRoundTrip() {
 	vf.Assert(vf.Implies(bytes.Equal(id, id2), vf.And(bytes.Equal(tx, tx2), mi == mi2)), "ctxid-injective")
 }
 
-// C18/C13: earned-fees prefix scan exactness over address lengths n, m
-func C18_EarnedPrefix() {
+// C18/C13: the earnings scans over provider addresses of lengths n, m (1..3 bytes; one may begin with the other).
+// Records are keyed provider||denom and found by the prefix "provider", so the raw prefix also matches the records
+// of a longer address that begins with this one; what the module's scans (GetEarnedFees, DeleteEarnedFees) return
+// and delete must nevertheless be exactly the records of their subject.
+func C18_EarnedScan() {
+	k, ctx := vf.Env()
 	n := 1 + vf.Choice("n", 3)
 	m := 1 + vf.Choice("m", 3)
 	p1 := sdk.AccAddress(vf.Bytes("p1", n))
 	p2 := sdk.AccAddress(vf.Bytes("p2", m))
-	key := types.GetEarnedFeesKey(p2, "stake")
-	sub := types.GetEarnedFeesSubspace(p1)
-	// a scan for p1 must return p2's record only if p2 == p1
-	properPrefix := vf.Or(len(p1) < len(p2) && bytes.HasPrefix(p2, p1), len(p2) < len(p1) && bytes.HasPrefix(p1, p2))
-	vf.AssertKF(vf.Implies(bytes.HasPrefix(key, sub), bytes.Equal(p1, p2)), "earned-scan-exact", "F6", properPrefix)
+	vf.Assume(!bytes.Equal(p1, p2))
+	a1, a2 := vf.Amount("a1"), vf.Amount("a2")
+	vf.Assume(vf.And(a1.IsPositive(), a2.IsPositive()))
+	k.SetEarnedFees(ctx, p1, coins(a1))
+	k.SetEarnedFees(ctx, p2, coins(a2))
+	f1, _ := k.GetEarnedFees(ctx, p1)
+	f2, _ := k.GetEarnedFees(ctx, p2)
+	vf.Assert(vf.And(f1.AmountOf(Denom).Equal(a1), f2.AmountOf(Denom).Equal(a2)), "earned-scan-exact")
+	k.DeleteEarnedFees(ctx, p1)
+	g1, _ := k.GetEarnedFees(ctx, p1)
+	g2, _ := k.GetEarnedFees(ctx, p2)
+	vf.Assert(vf.And(g1.Empty(), g2.AmountOf(Denom).Equal(a2)), "earned-delete-exact")
 }
 
 // name draws a valid service name of the given length (the real ValidateServiceName is assumed)
@@ -125,7 +136,7 @@ func C18_Keys() {
 	case 5: // volumes
 		c1, c2 := sdk.AccAddress(vf.Bytes("c1", 20)), sdk.AccAddress(vf.Bytes("c2", 20))
 		vf.Assert(vf.Implies(bytes.Equal(types.GetRequestVolumeKey(c1, n1, p1), types.GetRequestVolumeKey(c2, n2, p2)), vf.All(c1.Equals(c2), sameN, sameP)), "volume-key-injective")
-	case 6: // earnings, equal address lengths (different lengths: known finding F6, see C18_EarnedPrefix)
+	case 6: // earnings keys, equal address lengths (different lengths: the keeper filters its scans, see C18_EarnedScan)
 		q2 := sdk.AccAddress(p2[:20])
 		vf.Assert(vf.Implies(bytes.HasPrefix(types.GetEarnedFeesKey(q2, Denom), types.GetEarnedFeesSubspace(p1)), p1.Equals(q2)), "earnings-scan-exact-equal-lengths")
 		vf.Assert(vf.Implies(bytes.HasPrefix(types.GetOwnerEarnedFeesKey(o2, Denom), types.GetOwnerEarnedFeesSubspace(o1)), sameO), "owner-earnings-scan-exact")
